@@ -92,7 +92,12 @@ EXTRA = [
     ("forin-member-target", "(function () { var o = {}; for (o.k in {a: 1, b: 2}) { } return o.k; })()", "b"),
     ("catch-captured-live", "(function () { var g; try { throw 1; } catch (e) { g = function () { return e; }; e = 2; } return g(); })()", 2),
     ("catch-captured-update", "(function () { var g; try { throw 1; } catch (e) { g = function () { return e++; }; g(); return e + '|' + g(); } })()", "2|2"),
-    ("catch-shadow-restores", "(function () { var e = 'outer'; try { throw 'inner'; } catch (e) { } return e; })()", {"outer", "inner"}),
+    ("catch-shadow-restores", "(function () { var e = 'outer'; try { throw 'inner'; } catch (e) { } return e; })()", "outer"),
+    ("catch-param-does-not-leak", "try { throw 1 } catch (leaked) { } typeof leaked", "undefined"),
+    ("catch-param-nested-same-name", "(function () { try { throw 1 } catch (e) { try { throw 2 } catch (e) { var inner = e } return inner + '|' + e } })()", "2|1"),
+    ("catch-param-vs-property-names", "(function () { try { throw {m: 5} } catch (e) { return e.m + ({e: 7}).e } })()", 12),
+    ("catch-param-shadowed-in-function", "(function () { try { throw 3 } catch (e) { return (function (e) { return e })(9) + (function () { var e = 4; return e })() + e } })()", 16),
+    ("catch-param-vs-outer-param", "(function (e) { try { throw 1 } catch (e) { } return e })(8)", 8),
     ("named-fn-expr-self", "(function () { var f = function g(n) { return n ? g(n - 1) + 1 : 0; }; return f(3); })()", 3),
     ("fn-decl-hoisted-captured", "(function () { var r = h(); function h() { return k; } var k = 1; return String(r) + '|' + h(); })()", "undefined|1"),
     ("param-captured-by-arguments", "(function (a) { var g = function () { return a; }; a = 9; return g() + '|' + arguments.length; })(1)", "9|1"),
